@@ -76,7 +76,9 @@ FUNCTIONS['ISODD'] = wrap_ranges_func(functools.partial(xiseven_odd, odd=True))
 FUNCTIONS['ISEVEN'] = wrap_ranges_func(xiseven_odd)
 FUNCTIONS['ISERROR'] = wrap_ranges_func(iserror)
 FUNCTIONS['ISNUMBER'] = wrap_ranges_func(functools.partial(
-    iserror, check=lambda x: is_number(x, xl_return=False), array=FalseArray
+    iserror, check=lambda x: not isinstance(x, str) and is_number(
+        x, xl_return=False
+    ), array=FalseArray
 ))
 FUNCTIONS['ISBLANK'] = wrap_ranges_func(functools.partial(
     iserror, check=lambda x: x is sh.EMPTY, array=FalseArray
